@@ -48,8 +48,13 @@ def compare_models(model, m1, m2, data1, data2, shape, rt, mask=None):
     else:
         p1, p2 = m1.predict(data1, **kw), m2.predict(data2, **kw)
         p12 = m1.predict(data2, **kw)
+    # the same model on rescaled observations: nothing but the normalisation is involved, so this is judged at
+    # rounding level whatever the accuracy of the trainer's root search (cBMM)
+    rt_same = rt * 10 if p1.dtype == np.float32 or any(
+        np.asarray(d).dtype in (np.float32, np.complex64) for d in (data1 if isinstance(data1, tuple) else (data1,))
+    ) else min(rt * 10, 1e-8)
     bad = tol.mismatch(p2, p1, rt * 10, what=f'{model} posterior: model(c*y) vs model(y)') or \
-        tol.mismatch(p12, p1, rt * 10, what=f'{model} predict(c*y) vs predict(y) of the same model')
+        tol.mismatch(p12, p1, rt_same, what=f'{model} predict(c*y) vs predict(y) of the same model')
     if bad:
         return bad
     if model == 'cacgmm':
@@ -117,6 +122,64 @@ def run_small(key):
     bad = tol.mismatch(p2, p1, rt * 10, what=f'{model} fit_predict(c*y) vs fit_predict(y)')
     if bad:
         return viol(bad + f' (gains {gains.tolist()})')
+    return ok(outcome=tol.digest(M.fields(model, m1)[sorted(M.fields(model, m1))[0]]), evals=2)
+
+
+NEAR_ONE = ((1 + 3e-6, 1 - 2e-6, 1 + 1e-6, 1 - 4e-6, 1 + 2e-6, 1 - 1e-6),
+            (1 + 8e-6, 1 + 7e-6, 1 + 9e-6, 1 + 6e-6, 1 + 8e-6, 1 + 7e-6),
+            (1 - 1e-7, 1 + 1e-7, 1 - 2e-7, 1 + 2e-7, 1 - 3e-7, 1 + 3e-7),
+            (1 + 1e-3, 1 - 1e-3, 1.0, 1.0, 1 + 1e-9, 1 - 1e-9))
+
+
+def run_unit_layout(key):
+    """(a) observations that already have unit norm and gains whose modulus is close to (not exactly) one;
+    (b) the rescaled tensors handed over in another memory layout (Fortran order, permuted axes, strided,
+    negative strides): the models may not depend on either."""
+    model, D, its, variant, vidx, seed = (key[k] for k in ('model', 'D', 'its', 'variant', 'v', 'seed'))
+    N, K = 6, 2
+    positive = model == 'vmfmm'
+    cplx = model in M.COMPLEX_OBS
+    integ = model in M.INTEGRATION
+    lead = (2,) if integ else ()
+    y = A.generic_data(seed, lead + (N, D), 'c04u', model, D, complex_=cplx)
+    r = A.rng(seed, 'c04u-g', model, D, variant, vidx)
+    if variant == 'near_one':
+        y = y / np.linalg.norm(y, axis=-1, keepdims=True)
+        mod = np.array(NEAR_ONE[vidx])
+        gains = mod if positive else mod * np.exp(1j * r.uniform(0, 2 * np.pi, N))
+        layout = 'C'
+    else:
+        layout = A.LAYOUTS[vidx]
+        mod = 10.0 ** r.uniform(-3, 3, N)
+        gains = mod if positive else mod * np.exp(1j * r.uniform(0, 2 * np.pi, N))
+    if integ:
+        emb = A.generic_data(seed, lead + (N, 3), 'c04u-emb', model, complex_=False)
+        if model == 'vmfcacgmm' and variant == 'near_one':
+            emb = emb / np.linalg.norm(emb, axis=-1, keepdims=True)
+        data = (y, emb)
+        eg = np.array(NEAR_ONE[vidx]) if variant == 'near_one' else 10.0 ** r.uniform(-3, 3, N)
+        data2 = (A.relayout(y * gains[:, None], layout),
+                 A.relayout(emb * eg[:, None] if model == 'vmfcacgmm' else emb, layout))
+    else:
+        data = y
+        data2 = A.relayout(y * gains[:, None], layout)
+    init = A.soft_affiliation(seed, lead, K, N, 'c04u', model)
+    try:
+        m1 = M.fit(model, data, init, its)
+    except Exception as e:  # noqa
+        return trivial('fit raises on this tiny data set: ' + type(e).__name__)
+    try:
+        m2 = M.fit(model, data2, init, its)
+    except Exception as e:  # noqa
+        if model == 'cbmm' and isinstance(e, (AssertionError, ValueError)):
+            return trivial('cBMM guard: class scatter numerically rank deficient (eigenvalue <= 0 by rounding)')
+        return viol(f'{model}: fit(c*y) raised {e!r} although fit(y) succeeded ({variant} {vidx})')
+    rt = 1e-5 if model == 'cbmm' else tol.TIGHT * 100
+    bad = compare_models(model, m1, m2, data, data2, lead + (K, N), rt)
+    if bad and bad.startswith('TRIVIAL'):
+        return trivial(bad[9:])
+    if bad:
+        return viol(bad + f' ({variant} {vidx}: {layout if variant != "near_one" else NEAR_ONE[vidx]})')
     return ok(outcome=tol.digest(M.fields(model, m1)[sorted(M.fields(model, m1))[0]]), evals=2)
 
 
@@ -276,6 +339,19 @@ def subchecks(tier, seed):
     subs.append(Sub('gain_pairs_options', names, opt_cases, run_options,
                     bound=dict(deviations=1, positions=list(map(list, positions)), iterations=[1, 3, 10]),
                     min_nontrivial=300))
+
+    def unit_cases():
+        for model in ('cacgmm', 'cwmm', 'cbmm', 'gcacgmm', 'vmfcacgmm', 'vmfmm'):
+            for D in (2, 3):
+                for its in (1, 3):
+                    if model == 'cbmm' and D == 3 and its == 3:
+                        continue
+                    for v in range(len(NEAR_ONE)):
+                        yield (model, D, its, 'near_one', v, seed)
+                    for v in range(1, len(A.LAYOUTS)):
+                        yield (model, D, its, 'layout', v, seed)
+    subs.append(Sub('unit_norm_inputs_and_layouts', ('model', 'D', 'its', 'variant', 'v', 'seed'), unit_cases,
+                    run_unit_layout, bound=dict(near_one=[list(x) for x in NEAR_ONE], layouts=list(A.LAYOUTS[1:]))))
 
     def single_cases():
         for fam in ('cacg', 'watson', 'bingham', 'vmf'):
